@@ -122,7 +122,13 @@ def cases(chk):
                'R': lambda b: make_function(b, 'Receive', 'external', True, True, False),
                'K': lambda b: make_function(b, 'Fallback', 'external', False, True, False),
                'V': lambda b: make_variable(b, 'uint256', 'public', None, False),
-               'I': lambda b: make_function(b, 'Function', 'external', False, False, False)}
+               'I': lambda b: make_function(b, 'Function', 'external', False, False, False),
+               # declarations whose underscore contradicts their visibility (U, P: functions; W, X: variables; N: public constant)
+               'U': lambda b: make_function(b, 'Function', 'external', False, True, True),
+               'P': lambda b: make_function(b, 'Function', 'private', False, True, False),
+               'W': lambda b: make_variable(b, 'uint256', 'private', None, False),
+               'X': lambda b: make_variable(b, 'uint256', 'public', None, True),
+               'N': lambda b: make_variable(b, 'uint256', 'public', 'constant', False, init=True)}
     seqs = [''.join(p) for n in range(1, 4) for p in itertools.product('FMCRV', repeat=n)]
     seqs += ['FFC', 'MMC', 'CFC', 'KC', 'IC', 'VMC', 'CC', 'FCFC', 'MFMC', 'VFVC', 'CMFR']
     for sq in seqs:
@@ -133,7 +139,7 @@ def cases(chk):
             out.append(('contracts %s (first is %s)' % (t, ck),
                         lambda b, q=t, k=ck: file_of(b, [('contract', k if i == 0 else 'Contract', [letters[c](b) for c in part])
                                                          for i, part in enumerate(q.split('|'))])))
-    for t in ('f|C', 'f|FC', 'C|f', 'f|f|C', 'FC|f'):
+    for t in ('f|C', 'f|FC', 'C|f', 'f|f|C', 'FC|f', 'f|UP', 'U|f|P', 'UP|f', 'f|WXN', 'W|f|XN', 'f|PC|f|U', 'f|FUC'):
         out.append(('free function and contracts %s' % t,
                     lambda b, q=t: file_of(b, [('free', make_function(b, 'Function', None, False, True, False)) if part == 'f'
                                                else ('contract', 'Contract', [letters[c](b) for c in part]) for part in q.split('|')])))
